@@ -90,6 +90,21 @@ def mutants_of(d, counter):
         m.cparams[0] = (n + "X", ct, cv)
         out.append(m)
     if d.kind == "enum":
+        # a named field inside a variant renamed; two named fields of a variant swapped
+        for vi, (vn, st, fs) in enumerate(d.body):
+            if st == "named" and len(fs) >= 1:
+                m = new("variant-field-renamed")
+                vfs = list(m.body[vi][2])
+                vfs[0] = (vfs[0][0] + "_r", vfs[0][1])
+                m.body[vi] = (vn, st, vfs)
+                out.append(m)
+                if len(fs) >= 2:
+                    m = new("variant-fields-swapped")
+                    vfs = list(m.body[vi][2])
+                    vfs[0], vfs[1] = vfs[1], vfs[0]
+                    m.body[vi] = (vn, st, vfs)
+                    out.append(m)
+                break
         m = new("variant-renamed")
         vn, st, fs = m.body[0]
         m.body[0] = (vn + "R", st, fs)
